@@ -501,7 +501,10 @@ func runC19(c *Ctx) {
 	}
 
 	// ================= R6: scroll distance and fill geometry of the framebuffer console =================
-	c.floor("C19.R6", 2)
+	c.floor("C19.R6", 5)
+	for _, pn := range []string{"fill8", "fill16", "fill24"} {
+		c19PainterGeometry(c, m, painters[pn], painters["fbOffset"], vesaFb, pitchF, bytesPP, pn != "fill8")
+	}
 	{
 		zi := &Polyizer{Inline: true, Atom: func(v ssa.Value) string {
 			if _, f, ok := loadedField(v); ok && isIntegral(f.Type()) {
@@ -607,6 +610,141 @@ func runC19(c *Ctx) {
 			c.check(bad == "", "C19.R6", "fill-geometry "+m.fnName(fill), fmt.Sprintf("%d painter call(s), each with the clipped rectangle scaled by the glyph size", ncall), bad, where...)
 		}
 	}
+}
+
+// painterGeometry (C19.R6): a fill painter paints pH rows of pW pixels: its
+// framebuffer stores are in an inner loop over one row - from the row's start
+// in steps of the pixel size up to start + pW*pixel size, pW being the
+// parameter - inside an outer loop whose row start begins at fbOffset(pX, pY),
+// advances by the pitch, and runs pH times, pH being the parameter.
+func c19PainterGeometry(c *Ctx, m *Module, fn, fbOffset *ssa.Function, fbF, pitchF, bppF *types.Var, pixelBytes bool) {
+	key := "painter-geometry " + m.fnName(fn)
+	g := newIG(m, fn, nil)
+	pX, pY, pW, pH := paramNamed(fn, "pX"), paramNamed(fn, "pY"), paramNamed(fn, "pW"), paramNamed(fn, "pH")
+	if pX == nil || pY == nil || pW == nil || pH == nil {
+		ps := fn.Params
+		if len(ps) >= 5 {
+			pX, pY, pW, pH = ps[1], ps[2], ps[3], ps[4]
+		} else {
+			c.undecided("C19.R6", key, "the painter does not take (x, y, width, height)")
+			return
+		}
+	}
+	z := &Polyizer{NoInline: true, Atom: func(v ssa.Value) string {
+		if _, f, ok := loadedField(v); ok && isIntegral(f.Type()) {
+			return f.Name()
+		}
+		return ""
+	}}
+	bad := ""
+	var where string
+	nst := 0
+	for n, in := range g.Ins {
+		st, ok := in.(*ssa.Store)
+		if !ok {
+			continue
+		}
+		ia, ok := st.Addr.(*ssa.IndexAddr)
+		if !ok || !isLoadOfField(ia.X, fbF) {
+			continue
+		}
+		nst++
+		where = g.posOf(n)
+		lf, inLoop := g.loopFormAt(z, st.Block())
+		if !inLoop {
+			bad = "a framebuffer store is not in the loop over the pixels of a row"
+			continue
+		}
+		first, step, okA := lf.affineInT(ia.Index)
+		// the row variable: the start value of the pixel cursor
+		var rowStart ssa.Value
+		for phi := range lf.Init {
+			if fp, _, ok := lf.affineInT(phi); ok {
+				d := first.add(fp, -1)
+				if k, isC := d.isConst(); isC && k >= 0 && k < 4 {
+					rowStart = lf.Init[phi]
+				}
+			}
+		}
+		wantStep := polyConst(1)
+		if pixelBytes {
+			wantStep = polyAtom(bppF.Name())
+		}
+		// the end of the row: the stay test cursor < end
+		var endOK bool
+		var inner *ssa.BasicBlock = lf.Header
+		for blk := range lf.Body {
+			ifi, ok := blk.Instrs[len(blk.Instrs)-1].(*ssa.If)
+			if !ok || len(blk.Succs) != 2 || lf.Body[blk.Succs[0]] == lf.Body[blk.Succs[1]] {
+				continue
+			}
+			f, ok := condFact(ifi.Cond, lf.Body[blk.Succs[0]])
+			if !ok || f.Y == nil || f.Op != token.LSS || rowStart == nil {
+				continue
+			}
+			lf.Done()
+			span := z.Of(f.Y).add(z.Of(rowStart), -1)
+			if span.equal(z.Of(pW).mul(wantStep)) {
+				endOK = true
+			}
+			lf, _ = g.loopFormAt(z, st.Block())
+		}
+		early := lf.otherExits(g)
+		lf.Done()
+		switch {
+		case !okA || rowStart == nil:
+			bad = "the framebuffer index is not a cursor that runs along one row"
+		case !step.equal(wantStep):
+			bad = "the pixel cursor advances by " + step.String() + ", expected " + wantStep.String()
+		case !endOK:
+			bad = "a row does not end pW pixels after its start (pW being the width the painter was given)"
+		case len(early) > 0:
+			bad = "the pixel loop can be left early"
+		}
+		if bad != "" {
+			continue
+		}
+		// the rows
+		var outerBlk *ssa.BasicBlock
+		for _, p := range inner.Preds {
+			if !lf.Body[p] {
+				outerBlk = p
+			}
+		}
+		lo, inOuter := g.loopFormAt(z, outerBlk)
+		if outerBlk == nil || !inOuter {
+			bad = "the rows are not painted by a loop around the pixel loop"
+			continue
+		}
+		rFirst, rStep, okR := lo.affineInT(rowStart)
+		trips, tok := lo.Trips, lo.TripsOK
+		earlyO := lo.otherExits(g)
+		lo.Done()
+		okInit := false
+		for _, in2 := range g.Ins {
+			if call, ok := in2.(*ssa.Call); ok && m.callsTo(in2, fbOffset) {
+				a := call.Common().Args
+				if len(a) == 3 && stripConv(a[1]) == ssa.Value(pX) && stripConv(a[2]) == ssa.Value(pY) && z.Of(call).equal(rFirst) {
+					okInit = true
+				}
+			}
+		}
+		switch {
+		case !okR || !okInit:
+			bad = "the first row does not start at fbOffset(pX, pY)"
+		case !rStep.equal(polyAtom(pitchF.Name())):
+			bad = "the row start advances by " + rStep.String() + ", expected the pitch"
+		case !tok || !trips.equal(z.Of(pH)):
+			bad = "the number of rows painted is not pH (the height the painter was given)"
+		case len(earlyO) > 0:
+			bad = "the row loop can be left early"
+		}
+	}
+	if nst == 0 {
+		bad = "the painter stores nothing into the framebuffer"
+		where = m.pos(fn.Pos())
+	}
+	c.check(bad == "", "C19.R6", key, "pH rows from fbOffset(pX, pY) in steps of the pitch; each row pW pixels", bad, where)
 }
 
 // dependsOn: v is computed from p (through arithmetic / conversions).
